@@ -51,9 +51,36 @@ def web_registry(reg=None):
         z3.Function('is_uuid_like', StrSort, z3.BoolSort())(
             __import__('pyvc.ops', fromlist=['x']).to_term(a[0], 'str')), 'bool')
     reg['classes'][_uuid.UUID] = lambda I, a, k: _UuidVal(a[0])
+    reg['int_of_real'] = int_of_real_hook
     c[id(_copy.copy)] = _copy_contract
     c[id(_copy.deepcopy)] = _copy_contract
     return reg
+
+
+def int_of_real_hook(I, v):
+    """int(x) of a real that may be non-finite (A-real: JSON numbers entering
+    through jsonutils.loads can be NaN / +-Infinity): ValueError resp.
+    OverflowError."""
+    flags = I.ghost.get('nonfinite', {})
+    if not flags:
+        return
+    hit = []
+    seen = set()
+    stack = [v.t]
+    while stack:
+        x = stack.pop()
+        if x.get_id() in seen:
+            continue
+        seen.add(x.get_id())
+        f = flags.get(x.sexpr())
+        if f is not None:
+            hit.append(f)
+        stack.extend(x.children())
+    if hit:
+        if I.ex.branch(z3.Or(*hit) if len(hit) > 1 else hit[0]):
+            if I.ex.choose(2, tag='nan-or-inf') == 0:
+                I.raise_(ValueError, 'cannot convert float NaN to integer')
+            I.raise_(OverflowError, 'cannot convert float infinity to integer')
 
 
 class _UuidVal(Native):
